@@ -84,6 +84,10 @@ func Alphabet(p int) []*Def {
 	add("flags-signed-negative-shifts", &Def{Kind: Enum, Name: n("Fneg"), Flags: true, Base: "int32", Members: []Member{
 		{Name: "All", Expr: "-1", S: -1}, {Name: "High", Expr: "All << 16", S: -65536}, {Name: "Lit", Expr: "-2 << 8", S: -512},
 		{Name: "Down", Expr: "-1024 >> 8", S: -4}, {Name: "Top", Expr: "1 << 30", S: 1 << 30}}})
+	// member names shared with "flags" (R, W, RW, P) and "flags-typed-i32" (A, C), each at ANOTHER position, and referenced
+	add("flags-shared-member-names", &Def{Kind: Enum, Name: n("Fs"), Flags: true, Members: []Member{
+		{Name: "RW", Expr: "24", U: 24}, {Name: "P", Expr: "32", U: 32}, {Name: "R", Expr: "RW & 8", U: 8}, {Name: "W", Expr: "RW & 16", U: 16},
+		{Name: "A", Expr: "R | W | P", U: 56}, {Name: "C", Expr: "A & 40", U: 40}}})
 	add("const-uint64-hex", &Def{Kind: Const, Name: n("cu"), CType: "uint64", CText: "0xFFFFFFFFFFFFFFFF", CValue: "0xFFFFFFFFFFFFFFFF"})
 	add("const-int-neg", &Def{Kind: Const, Name: n("cn"), CType: "int64", CText: "-9223372036854775808", CValue: "-9223372036854775808"})
 	add("const-float", &Def{Kind: Const, Name: n("cf"), CType: "float64", CText: "1.5e3", CValue: "1.5e3"})
